@@ -8,6 +8,7 @@ import NdnVerif.C14.LemmasEnc
 import NdnVerif.C14.LemmasUri3
 import NdnVerif.C14.Table
 import NdnVerif.C14.Pattern
+import NdnVerif.C14.XXHash
 namespace Ndn.C14
 
 /-! ## 1. `Name.Compare` is a total order and coincides with NDN canonical order -/
@@ -254,5 +255,18 @@ theorem namePatternFromStr_pinned_panics_on_empty : namePatFromStrPinned [] = .p
 example : namePatFromStr [] = .ok [] := by decide
 example : namePatFromStr (asciiBytes "/a/<v=ver>/<x>") =
     .ok [.comp ⟨8, [97]⟩, .pat 0x36 (asciiBytes "ver"), .pat 8 [120]] := by decide
+
+/-! ## 8. what the hash does NOT give: XXH64 collisions can be computed (finding F-14d) -/
+
+def collisionX : Bytes := [43, 220, 152, 19, 166, 78, 136, 62, 59, 124, 213, 240, 70, 16, 254, 137, 95, 113, 3, 178, 64, 116, 174, 233, 156, 4, 95, 86, 102, 92, 144, 137, 193, 76, 77, 190, 23, 198, 97, 16, 240, 4, 248, 193, 57, 78, 197, 161, 94, 119]
+def collisionY : Bytes := [43, 220, 152, 19, 166, 78, 136, 62, 123, 124, 213, 240, 70, 16, 254, 137, 95, 113, 3, 178, 64, 116, 174, 233, 156, 4, 95, 86, 102, 92, 144, 137, 193, 76, 77, 190, 23, 198, 97, 16, 227, 187, 233, 42, 235, 142, 146, 0, 94, 119]
+
+set_option maxRecDepth 8000 in
+/-- two different 50-byte generic components whose names hash to the same XXH64 value: one 8-byte word of the
+    value was changed and the word 32 bytes further on (same lane, next stripe) adjusted by the computed amount.
+    Every table that identifies a component or a name by `Hash()` alone conflates the two. -/
+theorem hash_collision_can_be_computed :
+    collisionX ≠ collisionY ∧ nameHash [⟨8, collisionX⟩] = nameHash [⟨8, collisionY⟩] ∧
+    compHash ⟨8, collisionX⟩ = compHash ⟨8, collisionY⟩ := by decide
 
 end Ndn.C14
